@@ -226,7 +226,6 @@ def _state_op(m, call, span):
 
 # --------------------------------------------------------------------------- reindex() / copy() of a traced instance
 RX_NEW_SIG = 'C17|TracerMixin.trace_t<-reindex|new-period-holds-None-instead-of-a-Trace|AttributeError'
-RX_SHARED_SIG = 'C17|TracerMixin.trace_t<-reindex|Trace-objects-shared-with-the-original-instance|original-trace-grows'
 
 
 def impl_rx(case):
@@ -281,10 +280,11 @@ def oracle_rx(case, obs):
         fails.append({'sig': sig, 'what': what})
     x, u = obs['rx'], obs['rx_twin']
     if x['old_changed']:
-        if case['via'] == 'reindex':
-            bad(RX_SHARED_SIG, 'solve_t(0, trace=%r) on m.reindex(...) changed the Trace of period 0 of the ORIGINAL model m (both hold the same Trace object)' % (py_trace(case['trace']),))
-        else:
-            bad('C17|TracerMixin|copy-shares-trace-objects', 'a traced solve on m.copy() changed a Trace of m')
+        # must hold for both (reindex: since fix 28b2a9a): the new instance shares no Trace object with the original
+        bad('C17|TracerMixin|%s-shares-trace-objects' % case['via'], 'solve_t(0, trace=%r) on m.%s(...) changed the Trace of period 0 of the ORIGINAL model m '
+            '(both hold the same Trace object)' % (py_trace(case['trace']), case['via']))
+    if any(c not in ('none', 'own') for c in x['pattern']):
+        bad('C17|TracerMixin|%s-shares-trace-objects' % case['via'], 'after m.%s(...) the new instance holds the very Trace object(s) of the original: %s' % (case['via'], x['pattern']))
     same_a = all(x[k] == u[k] for k in ('outA',)) and (x['outB'] is not None or all(x[k] == u[k] for k in ('vals', 'status', 'iters')))
     if not same_a:
         bad('C17|TracerMixin|traced-differs-from-untraced', 'after %s: traced solve_t(0) gives %s, untraced %s' % (case['via'], x['outA'], u['outA']))
